@@ -535,6 +535,9 @@ func BuildZogLate(n *Node, r *Recorder) z.ZogSchema {
 	return s
 }
 
+// BuildDefFirst makes every node that has both call Default(...) before Required() (set by the "default-then-required" item families).
+var BuildDefFirst bool
+
 // BuildLateMode makes every top-level BuildZog a BuildZogLate (set by the "late-config" item families).
 var BuildLateMode bool
 
@@ -595,11 +598,14 @@ func BuildZog(n *Node, r *Recorder) z.ZogSchema {
 	case KStr:
 		s := z.String()
 		cfg(func() {
-		if n.Req {
+		if n.Req && !BuildDefFirst {
 			s.Required()
 		}
 		if n.DefClass > 0 {
 			s.Default(n.defaultValue().Interface().(string))
+		}
+		if n.Req && BuildDefFirst {
+			s.Required()
 		}
 		if n.Catch && !n.NoCatch {
 			s.Catch(primValue(KStr, VCatch).(string))
@@ -626,11 +632,14 @@ func BuildZog(n *Node, r *Recorder) z.ZogSchema {
 	case KInt:
 		s := z.Int()
 		cfg(func() {
-		if n.Req {
+		if n.Req && !BuildDefFirst {
 			s.Required()
 		}
 		if n.DefClass > 0 {
 			s.Default(n.defaultValue().Interface().(int))
+		}
+		if n.Req && BuildDefFirst {
+			s.Required()
 		}
 		if n.Catch && !n.NoCatch {
 			s.Catch(primValue(KInt, VCatch).(int))
@@ -655,11 +664,14 @@ func BuildZog(n *Node, r *Recorder) z.ZogSchema {
 	case KFloat:
 		s := z.Float64()
 		cfg(func() {
-		if n.Req {
+		if n.Req && !BuildDefFirst {
 			s.Required()
 		}
 		if n.DefClass > 0 {
 			s.Default(n.defaultValue().Interface().(float64))
+		}
+		if n.Req && BuildDefFirst {
+			s.Required()
 		}
 		if n.Catch && !n.NoCatch {
 			s.Catch(primValue(KFloat, VCatch).(float64))
@@ -684,11 +696,14 @@ func BuildZog(n *Node, r *Recorder) z.ZogSchema {
 	case KBool:
 		s := z.Bool()
 		cfg(func() {
-		if n.Req {
+		if n.Req && !BuildDefFirst {
 			s.Required()
 		}
 		if n.DefClass > 0 {
 			s.Default(n.defaultValue().Interface().(bool))
+		}
+		if n.Req && BuildDefFirst {
+			s.Required()
 		}
 		if n.Catch && !n.NoCatch {
 			s.Catch(primValue(KBool, VCatch).(bool))
@@ -713,11 +728,14 @@ func BuildZog(n *Node, r *Recorder) z.ZogSchema {
 	case KTime:
 		s := z.Time()
 		cfg(func() {
-		if n.Req {
+		if n.Req && !BuildDefFirst {
 			s.Required()
 		}
 		if n.DefClass > 0 {
 			s.Default(n.defaultValue().Interface().(time.Time))
+		}
+		if n.Req && BuildDefFirst {
+			s.Required()
 		}
 		if n.Catch && !n.NoCatch {
 			s.Catch(tCatch)
@@ -742,11 +760,14 @@ func BuildZog(n *Node, r *Recorder) z.ZogSchema {
 	case KSlice:
 		s := z.Slice(BuildZog(n.Elem, r))
 		cfg(func() {
-		if n.Req {
+		if n.Req && !BuildDefFirst {
 			s.Required()
 		}
 		if n.DefClass > 0 {
 			s.Default(n.defaultValue().Interface())
+		}
+		if n.Req && BuildDefFirst {
+			s.Required()
 		}
 		for _, t := range n.Tests {
 			if t.Builtin {
